@@ -76,6 +76,11 @@ def units(tier, seed):
             us.append({"kind": "m2d", "year": y, "month": m, "tier": tier})
     us.append({"kind": "guards"})
     # size classes beyond the exhaustive bound: structured series with the same per-run reference
+    # size ladder around powers of two (typical thresholds of blocked / vectorised code paths)
+    ladder = [7, 8, 9, 15, 16, 17, 31, 32, 33, 63, 64, 65, 100, 127, 128, 129, 255, 256, 257, 511, 512, 513,
+              1023, 1024, 1025, 2047, 2048, 2049, 4095, 4096, 4097]
+    for i in range(0, len(ladder), 4):
+        us.append({"kind": "aggladder", "ns": ladder[i:i + 4], "seed": seed})
     for n in ([1000, 20011] if tier == "quick" else [1000, 100003, 1000003]):
         for runlen in (1, 7, 366):
             if n > 200000 and runlen != 366:
@@ -454,6 +459,11 @@ def run_aggbig(unit, ctx):
 
 def run_unit(unit, ctx):
     k = unit["kind"]
+    if k == "aggladder":
+        for n in unit["ns"]:
+            for runlen in (1, 3, 31):
+                run_aggbig({"n": n, "runlen": runlen, "seed": unit["seed"]}, ctx)
+        return
     if k == "aggbig":
         run_aggbig(unit, ctx)
         return
